@@ -13,6 +13,8 @@ from __future__ import annotations
 import itertools
 import json
 
+from harness.translate import c16_shape
+
 ID = "C16"
 LEVEL_TEXT = ("19 theorems over ALL operation histories (induction over the op list, no length bound), closed under the global context. "
               "For every history that inserts objects fresh and under their own name and applies operations to objects that are in the "
@@ -38,6 +40,14 @@ LEVEL_NOTE = ("Trusted: Coq kernel, extraction, the object->state abstraction Wo
               "detached name of the new object ('f', not 'm.f'): modelled as is, not part of the property.")
 MODEL = ("Model.C16_tree", "run_C16")
 COQ_TARGETS = ["Proofs/C16_tree.vo"]
+TRANSLATOR_NAME = "harness/translate/c16_shape.py -> coq/Gen/C16_shape.v"
+ATTACH_FIRST = False     # what the translator read from set_member (set by translate)
+
+
+def translate(ctx):
+    global ATTACH_FIRST
+    ATTACH_FIRST = c16_shape.translate(ctx)
+
 RULE = ("corpus/C16 first; exhaustive: every sequence of <=2 operations over an alphabet of 127 operations {set_member/__setitem__ of a "
         "fresh M/C/F/A/alias(3 string targets) at 7 paths of depth<=3 over 2 names, del_member/__delitem__ at the same paths, "
         "resolve id<3, target:= id id (<3), 3 object-receiver insertions}, key alternately dotted string / tuple; quick: + 12000 seeded "
@@ -132,11 +142,41 @@ def alias_entries(w):
     return out
 
 
+def is_loose(w, v) -> bool:
+    """Python mirror of the Coq predicate loose: nothing refers to v (no members dictionary, no aliases dictionary, nobody's
+    parent, nobody's target)."""
+    if any(v is m for m in w.col.members.values()):
+        return False
+    for o in w.objs:
+        if o.parent is v:
+            return False
+        if o.is_alias:
+            if o.resolved and o._target is v:
+                return False
+        elif any(v is m for m in o.members.values()) or any(v is a for a in o.aliases.values()):
+            return False
+    return True
+
+
+def reattach_ok(w, op) -> bool:
+    """Python mirror of the Coq predicate reattach_ok: an alias that was deleted or replaced, of which nothing is left behind,
+    is inserted again under its own name through a receiver that is in the tree (not directly into the collection)."""
+    _, _, r, p, vi = op
+    if vi >= len(w.objs) or (r == [] and len(p) == 1):
+        return False
+    v = w.objs[vi]
+    if not v.is_alias or not is_loose(w, v) or (p[-1] if p else "") != v.name:
+        return False
+    return r == [] or (r[0] < len(w.objs) and is_live(w, w.objs[r[0]]))
+
+
 def is_top_down(w, op) -> bool:
     """Python mirror of the Coq predicate top_down (evaluated in the state before the operation)."""
     t = op[0]
-    if t in ("alloc", "set"):
+    if t == "alloc":
         return False
+    if t == "set":
+        return reattach_ok(w, op)
     if t == "new" and op[2] == [] and len(op[3]) == 1 and op[4] == "L":
         return False
     if t in ("new", "del"):
@@ -448,6 +488,7 @@ class Direct:
         self.reported = False
         self.regs = {}           # id(alias) -> {(id(target), key)}: every entry ever observed to hold the alias
         self.entries = {}        # (id(target), key) -> alias: the aliases dictionaries after the previous step
+        self.memo = {}           # (alias, target, path, holder) -> finding: failures already classified at an earlier step
 
     def dead(self, o) -> bool:
         return id(o) in self.once_live and not is_live(self.w, o)
@@ -467,6 +508,16 @@ class Direct:
         a = w.objs[aid]
         t = a.target
         cur = detail["alias"]
+        memo_key = (aid, id(t), cur, detail.get("held_by"))
+        if memo_key in self.memo:
+            return self.memo[memo_key]      # the same overwritten entry as at an earlier step (the holder may have moved since)
+        fid = self._classify_backref(a, aid, t, cur, detail)
+        if fid is not None:
+            self.memo[memo_key] = fid
+        return fid
+
+    def _classify_backref(self, a, aid, t, cur, detail):
+        w = self.w
         regs = self.regs.get(id(a), ())
         if (id(t), cur) not in regs:
             # never written under its present path at this target: known only as a key that was right before an ancestor moved
@@ -522,11 +573,13 @@ class Direct:
         before = None
         replaced = None
         pre_path = None
+        pre_vals = []
         if op[0] in ("new", "set") and not only_alloc:
             P = abs_path(w, self.spec, op[2], op[3]) if op[3] else None
             if op[1] == 0 and P is not None and P in self.spec.d and not self.spec.d[P].is_alias:
                 replaced = self.spec.d[P]
                 before = live_aliases_targeting(w, replaced)
+                pre_vals = list(replaced.aliases.values())
             if op[0] == "new":
                 pre_path = op[3][-1] if op[3] else None
             elif op[4] < len(w.objs):
@@ -544,6 +597,18 @@ class Direct:
                 self.regs.setdefault(id(a), set()).add(key)
                 self.tainted.discard(w.idx(a))
         self.entries = now
+        if pre_vals and len(w.objs) > 0:
+            # set_member re-targets every alias listed by the replaced member, one after the other: each one that now points at
+            # the new member was written under its path at that moment, even if a later one took the entry within the same call
+            v = w.objs[-1] if op[0] == "new" else (w.objs[op[4]] if op[4] < len(w.objs) else None)
+            for x in pre_vals:
+                if v is not None and x.resolved and x._target is v and (ATTACH_FIRST or w.idx(x) not in taint):
+                    # (an alias INSIDE the object being attached is re-targeted while that object is still detached, unless
+                    # set_member attaches first: its key is the detached path, which the taint rule covers)
+                    try:
+                        self.regs.setdefault(id(x), set()).add((id(v), x.path))
+                    except (AttributeError, RecursionError):
+                        pass
         self.tainted |= taint
         # reference dictionary
         if out == "ok":
@@ -1221,6 +1286,14 @@ def impl_only_history(ctx, n, label="impl-only"):
                         ctx.property_failure({"stream": label, "history": hist}, {"clause": "no-self-target", "detail": "self assignment accepted"})
         except _Done:
             ctx.observe("impl_only_outcome", "ok")
+        except RuntimeError as e:
+            # C16-F5: the re-targeting loop of set_member iterates the very dictionary it writes to (the stubs merge kept the
+            # existing module, which therefore "replaces" itself) and an alias registered under an outdated key makes it grow
+            hist.append(["->", "RuntimeError"])
+            fid = "C16-F5" if "dictionary changed size during iteration" in str(e) else None
+            ctx.observe("direct_failure", "impl-only:operation-crashes" + ("/F5" if fid else ""))
+            ctx.property_failure({"stream": label, "history": list(hist)}, {"clause": "operation-crashes", "detail": str(e)[:100]}, finding=fid)
+            return
         except (KeyError, AttributeError, ValueError, ARE, CAE) as e:
             hist.append(["->", type(e).__name__])
             ctx.observe("impl_only_outcome", type(e).__name__)
@@ -1232,17 +1305,15 @@ def impl_only_history(ctx, n, label="impl-only"):
             # finds (directly or wrapped), resp. the key must find nothing any more
             ctx.observe("impl_only_event", "through-alias-" + did[0])
             bad = None
-            try:
-                got = col.get_member(k)
-                if did[0] == "del":
+            # what the members of an alias are: those of its final target -- the real container must now hold the object
+            # under that name (resp. hold nothing under it)
+            if did[0] == "del":
+                if name in crossing.members:
                     bad = "deleted-gone"
-                elif got is not did[1] and not (got.is_alias and got.resolved and got.target is did[1]):
-                    bad = "retrievable-by-own-path"     # neither the object nor the wrapper Alias.members builds around it
-            except KeyError:
-                if did[0] == "set":
-                    bad = "retrievable-by-own-path"
-            except (ARE, CAE):
-                pass
+            elif crossing.members.get(name) is not did[1]:
+                bad = "retrievable-by-own-path"
+            elif did[1].parent is not crossing:
+                bad = "parent-is-container"
             if bad:
                 # C16-F4, exact: the operation was accepted and the members of the real container are exactly what they were
                 same = list(crossing.members.items()) == list(snapshot.items()) and all(a is b for a, b in zip(crossing.members.values(), snapshot.values()))
@@ -1365,6 +1436,27 @@ def replay_witness_f2(ctx):
     ctx.witness("C16-F2", al.target is f2 and f2.path == "m.f" and al.target_path == "f")
 
 
+def replay_witness_f5(ctx):
+    g, _, _ = _griffe()
+    col = g.ModulesCollection()
+    m = g.Module("m")
+    col.set_member("m", m)
+    f = g.Function("f")
+    m.set_member("f", f)
+    c = g.Class("C")
+    al = g.Alias("al", f)
+    c.set_member("al", al)       # registered as 'C.al' (C16-F1)
+    m.set_member("C", c)
+    try:
+        m.set_member("f", f)     # the same object again: the loop writes f.aliases['m.C.al'] while iterating f.aliases
+        ok = False
+    except RuntimeError as e:
+        ok = "dictionary changed size" in str(e)
+    except Exception:  # noqa: BLE001
+        ok = False
+    ctx.witness("C16-F5", ok)
+
+
 def replay_witness_f4(ctx):
     g, _, _ = _griffe()
     col = g.ModulesCollection()
@@ -1418,6 +1510,8 @@ def explore(ctx):
         replay_witness_f3(ctx)
     if "C16-F4" in ctx.known:
         replay_witness_f4(ctx)
+    if "C16-F5" in ctx.known:
+        replay_witness_f5(ctx)
     check_parts(ctx)
 
     # corpus
